@@ -159,6 +159,27 @@ def _api_fmt(evs):
     return " ; ".join(" ".join(str(x) for x in e) for e in evs)
 
 
+def _skipped_beat_shape(sc, evs):
+    """exactly this history: the send buffer is full (10 commands accepted during an outage) when the connection comes back AT a heartbeat
+    instant; that one heartbeat is not sent, the heartbeat loop goes on (later heartbeats are sent and answered), and the only reset is the
+    one 330 s after the last response"""
+    if len(sc.get("calls", [])) != 10 or sc.get("version_answers"):
+        return False
+    start = next((e[1] for e in evs if e[0] == "start"), None)
+    if start is None:
+        return False
+    beats = [e[1] for e in evs if e[0] == "beat"]
+    resps = [e[1] for e in evs if e[0] == "resp"]
+    resets = [e[1] for e in evs if e[0] == "reset"]
+    back = [e[2] for e in evs if e[0] == "conn" and e[1] == 1 and e[2] > start]
+    if not back or (back[0] - start) % 2400 != 0:
+        return False
+    T = back[0]
+    missing = [t for t in range(start, max(beats + [T]) + 1, 2400) if t not in beats]
+    last_resp_before = max([r for r in resps if r < T] + [start])
+    return missing == [T] and resets == [last_resp_before + 2640] and any(b > T for b in beats) and all(any(0 <= r - b <= 240 for r in resps) for b in beats)
+
+
 def api_level(ctx, thorough):
     """the real AirTouch4/5 object over the real socket: which frame is the heartbeat, what counts as its response,
     when the connection is reset - judged by the same Spec monitor with the default 300 s / 330 s configuration"""
@@ -173,6 +194,13 @@ def api_level(ctx, thorough):
              # "once initialised" the heartbeat must run all the same
              dict(inst=fullstack.INST, refuse_until=56, version_answers=[1, None], horizon=8000),
              dict(inst=fullstack.INST, refuse_until=200, version_answers=[None], horizon=8000, chatter=301)]
+    # the application's commands pile up during an outage (up to the buffer's capacity) and the connection comes back AT a heartbeat
+    # instant (attempts are 2 s apart: the loss instant E decides whether one of them lands on 300 s): the console answers everything,
+    # the link stays up afterwards - heartbeats go on every 300 s and the connection is never reset
+    for E in (2350, 2351, 2352, 2353):
+        for ncalls in (9, 10):
+            fixed.append(dict(inst=fullstack.INST, horizon=8000, faults=[(2300, "refuse"), (E, "eof"), (2399, "accept")],
+                              calls=[(E + 1 + i // 3, ["power", "zone", "toggle"][i % 3]) for i in range(ncalls)]))
     for gen in (4, 5):
         for sc in fixed + [_api_scenario(rng) for _ in range(n)]:
             cases.append((gen, sc))
@@ -199,6 +227,11 @@ def api_level(ctx, thorough):
         if not any(e[0] == "start" for e in evs):
             ctx.tie_broken("C08:api-console-script", "the scripted console no longer brings the AirTouch %d object to the initialised state" % gen)
             continue
+        if v != "1" and _skipped_beat_shape(sc, evs):
+            # the one history listed in known_findings.txt: its own key, so that any other rejected run is still reported
+            ctx.violation("C08:api:skipped-beat-full-buffer", "AirTouch %d over the real socket: %s" % (gen, _api_fmt(evs)), kind="history", level="api", gen=gen,
+                          scenario={k: sc[k] for k in sc if k != "inst"}, implementation_output=[list(e) for e in evs], spec_verdict="c08 = false")
+            continue
         if v != "1" and (worst is None or len(evs) < len(worst[2])):
             worst = (gen, sc, evs)
     if worst is not None:
@@ -209,7 +242,7 @@ def api_level(ctx, thorough):
     ctx.coverage["rule"] += (
         " API level: the real AirTouch4 / AirTouch5 object over the real socket against a scripted console whose answers to the heartbeat "
         "requests follow a pattern (delay 1 / 8 / 239 / 245 / 300 ticks or never, per heartbeat), with and without a console-side close and a "
-        "refusing network for a while; events start / conn / beat (a console-version request written after initialisation) / resp (the console's "
+        "refusing network for a while, and with the application's commands filling the send buffer during an outage that ends at a heartbeat instant; events start / conn / beat (a console-version request written after initialisation) / resp (the console's "
         "version answer) / reset (reset_connection called by the heartbeat manager) judged by the Spec monitor with the package's default configuration.")
 
 
